@@ -258,3 +258,42 @@ package nfa
 //@   ensures (base(result) == base(results) && results != nil) || fresh(result)
 //@   ensures forall j :: j < 0 && 0 <= off(results) + j ==> results[j] == old(results[j])
 //@   ensures base(result) == base(results) ==> off(result) == off(results)
+
+// ---- NFA builder and the UTF-8 range compiler (C15) ----
+
+//@ trusted func (*ByteClassSet).SetRange
+//@   modifies bcs.*
+
+//@ func (*Builder).AddByteRange
+//@   props C15 C07
+//@   requires b != nil && b.byteClassSet != nil && len(b.states) < 4294967295 && off(b.states) == 0
+//@   modifies b.states, b.states[*], b.byteClassSet.*
+//@   ensures int(result) == old(len(b.states)) && len(b.states) == old(len(b.states)) + 1 && off(b.states) == 0
+//@   ensures b.states[result].kind == StateByteRange && b.states[result].lo == lo && b.states[result].hi == hi && b.states[result].next == next
+//@   ensures forall j :: 0 <= j && j < old(len(b.states)) ==> b.states[j].kind == old(b.states[j].kind) && b.states[j].lo == old(b.states[j].lo) && b.states[j].hi == old(b.states[j].hi) && b.states[j].next == old(b.states[j].next)
+//@   ensures b.byteClassSet == old(b.byteClassSet)
+//@   ensures base(b.states) == old(base(b.states)) || fresh(b.states)
+
+//@ spec func builderOK(c *Compiler) bool = c != nil && c.builder != nil && c.builder.byteClassSet != nil && off(c.builder.states) == 0 && len(c.builder.states) < 1000000000
+//@ spec func isBR(b *Builder, s StateID, x byte) bool = int(s) < len(b.states) && b.states[s].kind == StateByteRange && b.states[s].lo <= x && x <= b.states[s].hi
+// chains of byte-range states accepting exactly the given bytes and then reaching `end`
+//@ spec func acc1(b *Builder, s StateID, end StateID, b0 byte) bool = isBR(b, s, b0) && b.states[s].next == end
+//@ spec func acc2(b *Builder, s StateID, end StateID, b0 byte, b1 byte) bool = isBR(b, s, b0) && acc1(b, b.states[s].next, end, b1)
+//@ spec func acc3(b *Builder, s StateID, end StateID, b0 byte, b1 byte, b2 byte) bool = isBR(b, s, b0) && acc2(b, b.states[s].next, end, b1, b2)
+//@ spec func acc4(b *Builder, s StateID, end StateID, b0 byte, b1 byte, b2 byte, b3 byte) bool = isBR(b, s, b0) && acc3(b, b.states[s].next, end, b1, b2, b3)
+//@ spec func oldStatesKept(b *Builder, n int) bool = true
+
+//@ func (*Compiler).compileUTF81ByteRange
+//@   props C15 C07
+//@   requires builderOK(c) && 0 <= lo && lo <= hi && hi <= 0x7F
+//@   modifies c.builder.states, c.builder.states[*], c.builder.byteClassSet.*
+//@   ensures forall b0 byte :: acc1(c.builder, result, endState, b0) <==> (lo <= int(b0) && int(b0) <= hi)
+//@   ensures int(result) == old(len(c.builder.states)) && len(c.builder.states) == old(len(c.builder.states)) + 1 && off(c.builder.states) == 0 && c.builder == old(c.builder) && c.builder.byteClassSet == old(c.builder.byteClassSet)
+
+//@ func (*Compiler).compileUTF82ByteRange
+//@   props C15 C07
+//@   requires builderOK(c) && 0x80 <= lo && lo <= hi && hi <= 0x7FF && int(endState) < len(c.builder.states)
+//@   modifies c.builder.states, c.builder.states[*], c.builder.byteClassSet.*
+//@   ensures forall b0 byte, b1 byte :: (exists k :: 0 <= k && k < len(result) && acc2(c.builder, result[k], endState, b0, b1)) <==> (0xC2 <= b0 && b0 <= 0xDF && 0x80 <= b1 && b1 <= 0xBF && lo <= (int(b0) - 0xC0) * 64 + (int(b1) - 0x80) && (int(b0) - 0xC0) * 64 + (int(b1) - 0x80) <= hi)
+//@   ensures len(c.builder.states) >= old(len(c.builder.states)) && off(c.builder.states) == 0 && c.builder == old(c.builder) && c.builder.byteClassSet == old(c.builder.byteClassSet)
+//@   ensures forall k :: 0 <= k && k < len(result) ==> int(result[k]) >= old(len(c.builder.states))
